@@ -1,8 +1,12 @@
 /- Property C02: the property theorems (and nothing else). -/
 import Frugal.Proofs.ToWire
-import Frugal.Props.Instances
 import Frugal.Proofs.Strict
 import Frugal.Proofs.Holders
+import Frugal.Props.Inst.Params
+import Frugal.Props.Inst.F_skeleton_encoder
+import Frugal.Props.Inst.F_valid_binaryGuard
+import Frugal.Props.Inst.F_valid_list
+import Frugal.Props.Inst.F_valid_map
 namespace Frugal.C02
 open Frugal
 
